@@ -20,6 +20,7 @@ ENGINE_OF = {
     'C05': 'engines.e_omp',
     'C14': 'engines.e_interp',
     'C03': 'engines.e_group',
+    'C04': 'engines.e_integ',
 }
 
 
